@@ -51,6 +51,7 @@ func (fc *FnCtx) mapReadIn(heap T, id, k T) T {
 }
 
 func (fc *FnCtx) mapRead(st *State, m VOpaque, k T) Val {
+	fc.assumptions["integer maps are modelled as total functions key -> (present, value) per map identity; distinct map identities do not share entries; len() and range over maps are not modelled"] = true
 	v := fc.define(fc.mapReadIn(st.cheap, m.ID, k), "mv")
 	if mt, ok := m.Typ.Underlying().(*types.Map); ok {
 		fc.axiom(fc.rangeFact(v, mt.Elem())) // stored values are values of the element type
